@@ -282,3 +282,13 @@ Qed.
 (* ------------------------------------------------------------------ uniform *)
 Lemma uniform_length : forall n draw, length (uniform n draw) = n.
 Proof. intros n draw. unfold uniform. now rewrite map_length, seq_length. Qed.
+
+(* bounds for uniform: nothing but the contract of rng.uniform (values in [0, 1)) *)
+Lemma uniform_in_unit_square : forall sc n draw q,
+  0 < sc -> (forall i, 0 <= fst (draw i) <= sc /\ 0 <= snd (draw i) <= sc) ->
+  In q (map (to_unit sc) (uniform n draw)) -> (0 <= fst q <= 1 /\ 0 <= snd q <= 1)%Q.
+Proof.
+  intros sc n draw q Hsc Hd Hq. apply in_map_iff in Hq. destruct Hq as (p & Hq & Hp).
+  unfold uniform in Hp. apply in_map_iff in Hp. destruct Hp as (i & Hp & _). subst p q.
+  destruct (Hd i) as [Hx Hy]. unfold to_unit. simpl. split; apply Qmake_unit_interval; auto.
+Qed.
